@@ -308,6 +308,8 @@ def diff_poly(p, atom):
 
 def diff(r, atom):
     r = _r(r)
+    if atom not in r.d.atoms():
+        return Rat(diff_poly(r.n, atom), r.d)      # denominator free of the variable: no quotient rule, no blow-up
     # (n/d)' = (n' d - n d') / d^2
     return Rat(diff_poly(r.n, atom) * r.d - r.n * diff_poly(r.d, atom), r.d * r.d)
 
